@@ -166,13 +166,20 @@ func (f *Frame) dynamicCall(instr ssa.Instruction, c *ssa.CallCommon, fv *V, arg
 	// a package-level function variable that only its initialiser assigns
 	if ld, ok := c.Value.(*ssa.UnOp); ok {
 		if g, ok := ld.X.(*ssa.Global); ok && f.u.eng.GlobalImmutable(g) {
+			var target *ssa.Function
 			switch iv := f.u.eng.globalInit[g].(type) {
 			case *ssa.Function:
-				return f.inline(instr, iv, args, nil, st)
+				target = iv
 			case *ssa.MakeClosure:
 				if fn, ok := iv.Fn.(*ssa.Function); ok && len(iv.Bindings) == 0 {
-					return f.inline(instr, fn, args, nil, st)
+					target = fn
 				}
+			}
+			if target != nil {
+				if ct := f.u.eng.Specs.Contracts[ShortName(target)]; ct != nil {
+					return f.applyContract(instr, ct, target, c.Signature(), ShortName(target), args, st)
+				}
+				return f.inline(instr, target, args, nil, st)
 			}
 		}
 	}
@@ -366,6 +373,10 @@ func (f *Frame) execBuiltin(instr ssa.Instruction, b *ssa.Builtin, c *ssa.CallCo
 		return f.execCopy(instr, args, st, rt)
 	case "delete":
 		m := args[0]
+		if path := f.ssaPath(c.Args[0]); path != "" {
+			f.curCallArgs = []*V{args[1]}
+			f.anchorsAt("delete", path, st)
+		}
 		mk := u.mapKeysOf(m.Typ)
 		u.mapDelete(st, mk, m.T, u.keyTerm(args[1]))
 		return nil
@@ -1044,6 +1055,9 @@ func (f *Frame) anchorsAt(kind, calleeName string, st *State) {
 	f.anchorOrd[kind+" "+calleeName] = n + 1
 	for _, a := range f.contract.Asserts {
 		want := fmt.Sprintf("%s %s#%d", kind, calleeName, n)
+		if calleeName == "" {
+			want = fmt.Sprintf("%s #%d", kind, n)
+		}
 		if a.Anchor != want && !(a.Anchor == kind+" "+calleeName+"#*") {
 			continue
 		}
